@@ -120,7 +120,7 @@ func ppuRead(reg int) uint8 {
 
 func init() {
 	onReset(ppuNew)
-	register("ppu.new", func(a []string) { ppuNew() })
+	register("ppu.new", func(a []string) { ppuNew(); emit("new") })
 	// ppu.tick N: N machine cycles of the PPU; IF is cleared before each; prints a run-length encoding of
 	// (LY, STAT&7, IF&3) observed after each cycle
 	register("ppu.tick", func(a []string) {
